@@ -66,6 +66,7 @@ impl Prop for C12 {
         }
         fit_chunks(&mut r.plan, chain_bytes(&scn.chain), 150_000);
         scn.runs = vec![r];
+        super::dress(&mut scn, rng, true);
         h.check(&mut scn)?;
         Ok(())
     }
